@@ -626,7 +626,7 @@ var AllSessionKeys = []string{
 	authboss.Session2FAAuthToken, authboss.Session2FAAuthed, authboss.SessionOAuth2State, authboss.SessionOAuth2Params,
 	authboss.FlashSuccessKey, authboss.FlashErrorKey,
 	totp2fa.SessionTOTPSecret, totp2fa.SessionTOTPPendingPID,
-	sms2fa.SessionSMSNumber, sms2fa.SessionSMSSecret, sms2fa.SessionSMSLast, sms2fa.SessionSMSPendingPID,
+	sms2fa.SessionSMSNumber, sms2fa.SessionSMSSecret, "sms_secret_number", sms2fa.SessionSMSLast, sms2fa.SessionSMSPendingPID,
 	"app_theme", "app_cart", "app_lang",
 }
 
